@@ -12,6 +12,8 @@ interleaving, every job tree and any number of workers.
   * `proto_deleted_exactly_once`  along every run each step is destroyed at most once, and
                                   exactly once when the pool is quiescent
   * `proto_orig_D24*`, `proto_orig_loop_uaf`   the code as it was found reaches a use-after-free
+  * `proto_ranking`, `proto_progress`, `proto_reaches_quiescent`, `proto_terminates`   termination: a ranking
+                                  function decreases with every step that does not create a sub-step
 
 Part 2: the functional layer (Model/C04Key, C04Classify, C04Sort).
   * `key_*`                       the 64-bit key helper functions: key order is string order,
@@ -20,18 +22,24 @@ Part 2: the functional layer (Model/C04Key, C04Classify, C04Sort).
                                   not depend on the order in which the sub-jobs run
   * `distribution_is_partition`, `bucket_bounds_cover`, `equal_bucket_is_splitter`, `classification_monotone`,
     `classification_lower_bound`, `builder_writes_search_tree`, `classification_monotone_build`   classification /
-    distribution (OPEN: `index_ok_statement` beyond depth 10)
+    distribution; `index_ok`, `splitter_lcp_entries`
   * `sample_sort_step_lemma`      buckets sorted with exact inner LCPs ⇒ after `ps5_sample_sort_lcp` the whole
                                   range is sorted with exact LCPs
-  * OPEN: the end-to-end theorem about `sortM` (statement below)
+  * `sortAll_correct`, `sortAll_answer_unique`, `sortM_correct`   the end-to-end theorem: every parameter set and
+                                  chooser, sorted permutation, exact LCPs, no out-of-bounds read
+  * `sortAll_terminates`, `sortM_terminates`   the recursion terminates: fuel 3·(characters + strings) + 3
+                                  suffices, the model is total
 -/
 import TlxVerif.Proofs.C04ProtoInv
+import TlxVerif.Proofs.C04Term
 import TlxVerif.Proofs.C04Str
 import TlxVerif.Proofs.C04Assemble
 import TlxVerif.Proofs.C04Step
 import TlxVerif.Proofs.C04Classify
 import TlxVerif.Proofs.C04Tree
 import TlxVerif.Proofs.C04Index
+import TlxVerif.Proofs.C04Slcp
+import TlxVerif.Proofs.C04Main
 import TlxVerif.Model.C04Sort
 namespace TlxVerif.C04
 
@@ -397,6 +405,37 @@ example : (run Cfg.fixed (init .big 1) fixedDemo).map
     (fun s => (s.err, s.tasks.all List.isEmpty, s.objs.map (·.alive))) = some (none, true, [false, false]) := by
   decide
 
+/-! ### termination of the protocol -/
+
+/-- **Ranking function.**  `phi` (pending instructions weighted by everything they can still put in
+front of their task or into the queue, plus 4 for every live step that has not started
+`substep_all_done`) strictly decreases with every transition of the fixed system except the `spawn`
+choice of the bucket / work-sharing loop, i.e. except when the job tree grows by one sub-step. -/
+theorem proto_ranking {s s' : State} (hr : Reachable Cfg.fixed s) (h : StepL Cfg.fixed false s s') :
+    phi s' < phi s := phi_decreases (inv_reachable hr) h
+
+/-- **Progress**: a reachable state that is not quiescent can always move without creating a sub-step
+(no transition of the step protocol blocks; waiting on the pool's condition variables is C10). -/
+theorem proto_progress {s : State} (hr : Reachable Cfg.fixed s) (hq : ¬ s.quiescent) :
+    ∃ s', StepL Cfg.fixed false s s' := progress (inv_reachable hr) hq
+
+/-- at most `phi s` transitions are possible without creating a sub-step … -/
+theorem proto_work_bounded {n : Nat} {s s' : State} (hr : Reachable Cfg.fixed s) (h : WorkSteps n s s') :
+    n ≤ phi s := by have := workSteps_bounded h hr; omega
+
+/-- … finishing the pending work leads to the quiescent state (where, by
+`proto_quiescent_all_deleted`, every step has been deleted) … -/
+theorem proto_reaches_quiescent {s : State} (hr : Reachable Cfg.fixed s) :
+    ∃ n s', WorkSteps n s s' ∧ s'.quiescent := reaches_quiescent hr
+
+/-- … and **every run with a finite job tree terminates**: an infinite run of the fixed system creates
+sub-steps infinitely often. -/
+theorem proto_terminates (f : Nat → State) (h0 : Reachable Cfg.fixed (f 0))
+    (hstep : ∀ n, ∃ b, StepL Cfg.fixed b (f n) (f (n + 1))) :
+    ∀ n, ∃ m, n ≤ m ∧ StepL Cfg.fixed true (f m) (f (m + 1)) := infinite_run_spawns f h0 hstep
+
+example : phi (init .big 2) = 50 := by decide
+
 /-! ## Part 2: functional layer -/
 
 /-- **Key order is string order.**  Two NUL-free strings of one sort range (common prefix `p`,
@@ -502,22 +541,27 @@ theorem builder_writes_search_tree {tb : Nat} {samples : Array Key} {c : Classif
   build_isBST htb hsz hsorted h
 
 /-- **Classification with the real builder is monotone** (what the step lemma needs about the
-buckets): explicit splitter array — every tree depth; index calculation `pre_to_levelorder` (the
-default classifier) — tree depths 1..10, the index identity being checked by evaluation per depth. -/
+buckets), for the explicit splitter array and for the index calculation `pre_to_levelorder` of the
+default classifier alike, at every tree depth the classes support. -/
 theorem classification_monotone_build {tb : Nat} {samples : Array Key} {c : Classifier} {useCalc : Bool}
-    (htb : 1 ≤ tb) (hsz : 1 ≤ samples.size)
+    (htb : 1 ≤ tb) (htb' : tb ≤ 31) (hsz : 1 ≤ samples.size)
     (hsorted : ∀ (i j : Nat) (x y : Key), i ≤ j → samples[i]? = some x → samples[j]? = some y → x ≤ y)
-    (hb : build tb samples = some c) (hcalc : useCalc = true → tb ≤ 10)
+    (hb : build tb samples = some c)
     {k k' : Key} {b b' : Nat} (h : c.findBkt useCalc k = some b) (h' : c.findBkt useCalc k' = some b')
     (hlt : b < b') : k < k' :=
-  build_findBkt_lt htb hsz hsorted hb hcalc h h' hlt
+  build_findBkt_lt htb htb' hsz hsorted hb h h' hlt
 
-/-- `pre_to_levelorder(i+1)` is the level-order index of the `i`-th in-order splitter, for every
-tree depth the classifier supports (`switch (treebits)` has cases 1..15) -/
-def index_ok_statement : Prop := ∀ tb, 1 ≤ tb → tb ≤ 15 → IndexOk tb
--- OPEN: index_ok_statement — proved by evaluation for depths 1..10 (`index_ok_partial`); depths 11..15 and a
---   general bit-level proof are missing.  Also open: `splitter_lcp[i]` = LCP of neighbouring splitters.
-theorem index_ok_partial (tb : Nat) (h1 : 1 ≤ tb) (h2 : tb ≤ 10) : IndexOk tb := indexOk_upto_10 tb h1 h2
+/-- **`pre_to_levelorder(i+1)` is the level-order index of the `i`-th in-order splitter**, for every
+tree depth (`switch (treebits)` has cases 1..15; proved up to 31 = width of the `uint32_t` index):
+the `r`-th node in order, `r = 2^t·odd`, sits `t` levels above the leaves at position `r / 2^(t+1)`. -/
+theorem index_ok (tb : Nat) (h : tb ≤ 31) : IndexOk tb := indexOk tb h
+
+/-- **`splitter_lcp`**: entry `i` is `clz(splitter[i-1] ^ splitter[i]) / 8` (+ `0x80` iff `splitter[i]`
+ends inside its key) for the in-order neighbours, entry 0 keeps only the flag, the last entry is 0. -/
+theorem splitter_lcp_entries {tb : Nat} {samples : Array Key} {c : Classifier} (h : build tb samples = some c) :
+    c.slcp = (match slcpEntries 0 c.splitters with
+      | [] => []
+      | x :: xs => (if x ≥ 128 then 128 else 0) :: xs) ++ [0] := build_slcp h
 
 /-- **The base sorter specification is satisfiable**: `baseSort` (the model's stand-in for
 `insertion_sort`, property C03) returns a sorted permutation with exact LCPs. -/
@@ -536,15 +580,78 @@ theorem sample_sort_step_lemma (c : Classifier) (useCalc : Bool) (p : Str) (rs :
     lcpOk (rs.map (·.out)).flatten l ∧ (rs.map (·.out)).flatten.Pairwise (fun a b => strLe a b = true) :=
   lcpPass_good c useCalc p rs hb h
 
-/-- the end-to-end statement of the functional layer: for every threshold tuning, big/small
-decision, sample and pivot choice the model returns a correct answer and never reads out of bounds -/
-def sortAll_correct_statement : Prop :=
-  ∀ (env : Env) (fuel : Nat) (strs : List Str) (r : Res), (∀ s ∈ strs, nulFree s) →
-    (sortAll env fuel strs = .ok r → SortedLcp strs r) ∧ sortAll env fuel strs ≠ .error .oob
--- OPEN: sortAll_correct_statement — proved so far: the key/LCP arithmetic every step relies on (`key_*`),
---   disjointness and order independence of the sub-job ranges; missing: `build`/`findBkt` = lower-bound
---   `splitter_lcp` = LCP of neighbouring splitters (common prefix of a `<` bucket), the MKQS / insertion_sort_cache lemmas and the
---   induction over the recursion that combines them.
---   The model is tied to the implementation by the correspondence on order, LCPs and classifier internals.
+/-! ### the end-to-end theorem -/
+
+/-- **`sort_strings_parallel` (functional model) is correct for every parameter set and chooser.**
+`env` bundles `smallsort_threshold`, `inssort_threshold`, `TreeBits`, the classifier variant, the
+big/small decision of `enqueue` (any function, hence every `sequential_threshold()` incl.
+`enable_rest_size`), the samples drawn by every step and the pivots of every MKQS step.  `EnvOk`:
+thresholds ≥ 1, `1 ≤ TreeBits ≤ 31`, an empty range is never sent into a sample step, sample indices
+are `< n`.  For NUL-free input strings a run of the model that does not exhaust its fuel (`sortAll_terminates`: none does
+with fuel ≥ `fuelFor strs`) returns a
+permutation of the strings, sorted in unsigned-byte lexicographic order, with an LCP array of the same
+length whose entries `1..` are the exact LCPs of neighbours; and no run ever reads outside a string,
+the sample array, the splitter tree or the LCP array (`Err.oob`) or hits an internal error.
+Base cases are the C03 model of `insertion_sort` (`C03.insertionSort`, LCP overload). -/
+theorem sortAll_correct (env : Env) (henv : EnvOk env) (fuel : Nat) (strs : List Str)
+    (hnf : ∀ s ∈ strs, nulFree s) :
+    (∀ r, sortAll env fuel strs = .ok r → SortedLcp strs r) ∧
+      sortAll env fuel strs ≠ .error .oob ∧ sortAll env fuel strs ≠ .error .internal := by
+  have h := sortAll_safe henv fuel strs hnf
+  refine ⟨fun r hr => h.of_ok hr, ?_, ?_⟩ <;>
+  · intro e; rw [e] at h; exact absurd h.2 (by decide)
+
+/-- **The answer is independent of the parameter set, the samples, the pivots and every big/small
+decision** (and hence of how the work is split into jobs). -/
+theorem sortAll_answer_unique {env1 env2 : Env} (h1 : EnvOk env1) (h2 : EnvOk env2) {f1 f2 : Nat}
+    {strs : List Str} (hnf : ∀ s ∈ strs, nulFree s) {r1 r2 : Res}
+    (e1 : sortAll env1 f1 strs = .ok r1) (e2 : sortAll env2 f2 strs = .ok r2) :
+    r1.out = r2.out ∧ r1.lcp.drop 1 = r2.lcp.drop 1 :=
+  sortAll_unique h1 h2 hnf e1 e2
+
+/-- the recursion itself: every call (any mode, any range with a common prefix) is correct -/
+theorem sortM_correct {env : Env} (henv : EnvOk env) (fuel : Nat) (mode : Mode) (strs : List Str) (p : Str)
+    (hr : RangeOk p strs) (hpre : ModePre mode strs) :
+    Safe true (sortM env fuel mode strs p.length) (SortedLcp strs) :=
+  sortM_recOk henv fuel mode strs p hr hpre (fun e => by cases e)
+
+/-- non-vacuity: a small tuning satisfies `EnvOk`, and the model sorts with it -/
+def demoEnv : Env :=
+  { p := { treebits := 1, smallsort := 4, inssort := 3 }
+    isBig := fun n => n > 6
+    sampler := fun n cnt => (List.range cnt).map fun j => (j * 7 + 3) % n
+    pivot := fun keys => keys.length / 2 }
+
+theorem demoEnv_ok : EnvOk demoEnv := by
+  refine ⟨by decide, by decide, ?_, by decide, by decide, ?_, ?_⟩
+  · intro n h; simp [demoEnv] at h; omega
+  · intro n cnt; simp [demoEnv]
+  · intro n cnt hn i hi
+    simp only [demoEnv, List.mem_map, List.mem_range] at hi
+    obtain ⟨j, _, rfl⟩ := hi
+    exact Nat.mod_lt _ hn
+
+-- (runs with sample steps involve `List.mergeSort`, which the kernel does not unfold; they are exercised by the
+-- driver on every correspondence case — here the insertion-sort base case)
+example : (sortAll demoEnv 5 [[98, 97], [97]]).toOption.map (fun r => (r.out, r.lcp)) =
+    some ([[97], [98, 97]], [0, 0]) := by decide +kernel
+
+/-- **The recursion terminates and the model is total.**  With fuel `fuelFor strs` = 3·(characters +
+strings) + 3 or more, `sortAll` returns an answer (no fuel error, hence by `sortAll_correct` no error
+at all) and the answer is the sorted permutation with exact LCPs — for every parameter set, sample,
+pivot and big/small decision.  Measure of a call: `mu mode strs depth` = 3·(characters and terminators
+of the range behind the common prefix) + position of the mode in `enqueue → step → MKQSStep`; every
+sub-range of a step either misses the string a splitter / the pivot was read from, or lies 8 characters
+deeper in all its strings.  Consequence for the protocol layer: the job tree of a run is finite. -/
+theorem sortAll_terminates (env : Env) (henv : EnvOk env) (strs : List Str) (hnf : ∀ s ∈ strs, nulFree s)
+    {fuel : Nat} (hfuel : fuelFor strs ≤ fuel) :
+    ∃ r, sortAll env fuel strs = .ok r ∧ SortedLcp strs r :=
+  sortAll_total henv strs hnf hfuel
+
+/-- the same for every call of the recursion: fuel `mu mode strs depth` suffices -/
+theorem sortM_terminates {env : Env} (henv : EnvOk env) {fuel : Nat} (mode : Mode) (strs : List Str) (p : Str)
+    (hr : RangeOk p strs) (hpre : ModePre mode strs) (hfuel : mu mode strs p.length ≤ fuel) :
+    ∃ r, sortM env fuel mode strs p.length = .ok r ∧ SortedLcp strs r :=
+  Safe.total (sortM_recOk (af := false) henv fuel mode strs p hr hpre (fun _ => by omega))
 
 end TlxVerif.C04
